@@ -8,6 +8,7 @@ import (
 	"fmt"
 	control "github.com/longportapp/openapi-protobufs/gen/go/control"
 	"net"
+	"os"
 	"net/url"
 	"strings"
 	"sync"
@@ -519,25 +520,52 @@ func (r *Run) c12WSPingDuringBigWrite() {
 	atomic.StoreInt32(&pc.stopRead, 1)
 	if tc, ok := pc.c.UnderlyingConn().(*net.TCPConn); ok {
 		tc.SetReadBuffer(8192) // so that the client's writer really blocks in the socket write
+	} else if os.Getenv("VH_DEBUG") != "" {
+		fmt.Fprintf(os.Stderr, "underlying conn is %T\n", pc.c.UnderlyingConn())
 	}
-	big := &control.Close{Reason: strings.Repeat("0123456789abcdef", 1<<19)} // 8 MiB
+	// 10 MiB of random printable characters: the frame stays about 8 MiB after compression (the gzip threshold cannot be
+	// switched off through the client options: 0 means the default)
+	raw := r.rng.Fork().Bytes(10 << 20)
+	for i := range raw {
+		raw[i] = 33 + raw[i]%90
+	}
+	big := &control.Close{Reason: string(raw)}
 	var chans []chan doResult
 	for i := 0; i < 3; i++ {
 		chans = append(chans, s.tc.doAsync(uint32(100+i), big, 6*time.Second))
 		time.Sleep(20 * time.Millisecond)
 	}
-	time.Sleep(1200 * time.Millisecond) // several keepalive ticks while the writer is blocked
+	// several keepalive ticks while the writer is blocked; the peer pings too: the answers are control messages that must
+	// wait for (never cut into, never run beside) the data message in transmission
+	for i := 0; i < 4; i++ {
+		time.Sleep(150 * time.Millisecond)
+		pc.wmu.Lock()
+		pc.c.WriteControl(websocket.PingMessage, []byte(fmt.Sprintf("peer-ping-%d", i)), time.Now().Add(time.Second))
+		pc.wmu.Unlock()
+	}
+	if tc, ok := pc.c.UnderlyingConn().(*net.TCPConn); ok {
+		tc.SetReadBuffer(4 << 20) // drain quickly: the client gives its control messages 3 s
+	}
 	atomic.StoreInt32(&pc.stopRead, 0)
-	frames, pings, bad := 0, 0, ""
+	tDbg := time.Now()
+	frames, pings, pongs, bad := 0, 0, 0, ""
 	deadline := time.Now().Add(5 * time.Second)
-	for time.Now().Before(deadline) && frames < 3 {
+	for time.Now().Before(deadline) && (frames < 3 || pongs < 4) {
+		if frames == 3 && time.Until(deadline) > 700*time.Millisecond {
+			deadline = time.Now().Add(700 * time.Millisecond) // the answers to the peer's pings may follow the last frame
+		}
 		m := pc.next(time.Until(deadline))
 		if m == nil || m.kind == -1 {
 			break
 		}
+		if os.Getenv("VH_DEBUG") != "" {
+			fmt.Fprintf(os.Stderr, "peer got kind %d len %d at %v\n", m.kind, len(m.data), time.Since(tDbg))
+		}
 		switch m.kind {
 		case websocket.PingMessage:
 			pings++
+		case websocket.PongMessage:
+			pongs++
 		case websocket.BinaryMessage:
 			f, n, verdict := refDecode(1, m.data)
 			if verdict != "OK" || n != len(m.data) {
@@ -547,13 +575,23 @@ func (r *Run) c12WSPingDuringBigWrite() {
 			}
 		}
 	}
-	cs := "ws: keepalive 200 ms, three 8 MiB requests towards a peer that starts reading after 1.2 s"
+	cs := "ws: keepalive 200 ms, three 8 MiB (after compression) requests towards a peer that starts reading after 0.6 s and sends 4 pings meanwhile"
 	if bad != "" {
 		r.violate(Violation{What: bad, Case: cs})
 	} else if frames != 3 {
-		r.violate(Violation{What: fmt.Sprintf("%d of the 3 accepted frames arrived", frames), Case: cs})
+		if s.tc.log.count("write timeout") > 0 {
+			// the client gives every control message 3 s on the socket and recycles the connection when that passes: on a
+			// machine so loaded that the 0.6 s stall became 3 s the scenario says nothing
+			r.count("c12.ws.ping-during-big-write.inconclusive")
+		} else {
+			r.violate(Violation{What: fmt.Sprintf("%d of the 3 accepted frames arrived", frames), Case: cs})
+		}
+	}
+	if os.Getenv("VH_DEBUG") != "" {
+		fmt.Fprintln(os.Stderr, strings.Join(s.tc.log.snapshot(), "\n"))
 	}
 	r.st.Dist["c12.ws.ping-during-big-write.pings"] += pings
+	r.st.Dist["c12.ws.ping-during-big-write.pongs-to-peer-pings"] += pongs
 	r.st.Dist["c12.ws.ping-during-big-write.pings-sent"] += s.tc.log.count("send ping")
 	r.st.Dist["c12.ws.ping-during-big-write.queue-full"] += s.tc.log.count("keepalive failed to ping")
 	r.st.Evaluations++
